@@ -5,6 +5,7 @@ From SF Require Import Base.Prelude Gen.Generated Unsized.Types Unsized.Parse Un
 From SF Require Import Unsized.Proofs.EncodeParse Unsized.Proofs.Mem Unsized.Proofs.Notify Unsized.Proofs.Flat Unsized.Proofs.Layout
   Unsized.Proofs.Table Unsized.Proofs.Path Unsized.Proofs.Context Unsized.Proofs.Context2 Unsized.Proofs.Focus Unsized.Proofs.Pos
   Unsized.Proofs.FocusOps Unsized.Proofs.NotifyInside Unsized.Proofs.Resize Unsized.Proofs.GenOps.
+From SF Require Import Unsized.Proofs.EnumFacts.
 
 Arguments Z.add : simpl never.
 Arguments Z.sub : simpl never.
@@ -244,7 +245,7 @@ Lemma notify_keeps_pmb pi : forall t p src c m p' m' it k a n inner pmb rs re,
   notify t p src c m = Ok (p', m') -> get_at t p (mpath pi) = Some (TUList it k, PUList a n inner pmb rs re) ->
   exists a' n' inner' rs' re', get_at t p' (mpath pi) = Some (TUList it k, PUList a' n' inner' pmb rs' re').
 Proof.
-  induction pi as [|[i|i] r IH]; intros t p src c m p' m' it k a n inner pmb rs re H Hg.
+  induction pi as [|[i|i|] r IH]; intros t p src c m p' m' it k a n inner pmb rs re H Hg.
   - cbn [mpath map get_at] in *. injection Hg as -> ->. cbn [notify] in H.
     destruct (src <? a).
     { destruct inner as [q|]; [|injection H as <- _; eauto 10].
@@ -282,6 +283,13 @@ Proof.
     injection H as <- _.
     destruct (IH _ _ _ _ _ _ _ _ _ _ _ _ _ _ _ En Hg) as (a' & n' & inner' & rs' & re' & Hg').
     exists a', n', inner', rs', re'. exact Hg'.
+  - cbn [mpath map mstep_of get_at] in Hg. destruct t as [| | | | |rw vars]; try discriminate.
+    destruct p as [| | | | |st d q]; try discriminate.
+    destruct (find_variant d vars) as [vt|] eqn:Ef; try discriminate.
+    rewrite notify_enum, Ef in H.
+    destruct (notify vt q src c m) as [[q' m1]| | |] eqn:En; cbn [obind] in H; try discriminate. injection H as <- _.
+    destruct (IH _ _ _ _ _ _ _ _ _ _ _ _ _ _ _ En Hg) as (a' & n' & inner' & rs' & re' & Hg').
+    exists a', n', inner', rs', re'. cbn [mpath map mstep_of get_at]. rewrite Ef. exact Hg'.
 Qed.
 
 Lemma add_bytes_keeps_pmb pi t s top src start amount s1 top1 it k a n inner pmb rs re :
